@@ -860,6 +860,9 @@ func (g *Gen) auctionBid(ctx sdk.Context) *TxSpec {
 		if !nl.IsPositive() {
 			nl = sdk.OneInt()
 		}
+		if g.R.Chance(15) {
+			nl = sdk.ZeroInt() // the lot bid down to nothing: accepted by the keeper, the auction closes with an empty lot
+		}
 		amt = sdk.NewCoin(au.Lot.Denom, nl)
 	case *auctiontypes.CollateralAuction:
 		if !au.IsReversePhase() {
@@ -874,6 +877,9 @@ func (g *Gen) auctionBid(ctx sdk.Context) *TxSpec {
 			nl := lot.Sub(m.MulRaw(g.R.Range(1, 3)))
 			if !nl.IsPositive() {
 				nl = sdk.OneInt()
+			}
+			if g.R.Chance(15) {
+				nl = sdk.ZeroInt() // the lot bid down to nothing: accepted by the keeper, the auction closes with an empty lot
 			}
 			amt = sdk.NewCoin(au.Lot.Denom, nl)
 		}
